@@ -17,6 +17,9 @@ for how many sources in a row a range is found); which pieces are downloaded is 
 `step` is the code as it is, `stepFixed` the code with the smallest repair of finding C17-F3 (the slot of a corrupt
 web seed is only given back if the source still has a downloader).  Core Lean only.
 -/
+/-! NOTE (after the repair of finding C17-F3, rain commit b821f33): `stepFixed` / `runFixed` is now the code as it is
+(the driver of suite `wsloop` replays with `runFixed`); `step` / `run` is the behaviour before the repair, kept for
+the counterexample theorems (`…_full_false`, `active_drift_counterexample`). -/
 namespace Rain.WsAcct
 
 /-- One `webseedsource.WebseedSource` as far as the bookkeeping looks at it. -/
